@@ -81,6 +81,15 @@ def _prim_axioms(names):
 # ---------------------------------------------------------------------------
 # iteration
 
+class SliceVal:
+    """x[a:] of a JSON list x (a clamped to [0, len]): kept symbolic as (base, lo) so that loops over
+    it range over the *original* indices (no index shift in the verification conditions)."""
+    __slots__ = ("base", "lo")
+
+    def __init__(self, base, lo):
+        self.base, self.lo = base, lo
+
+
 class ItemsView:
     __slots__ = ("d",)
 
@@ -119,6 +128,9 @@ def make_iterspec(I, st, it):
         return [(st, IterSpec(seq=cat(*cell["parts"]), unordered=cell["kind"] == "set"))]
     if isinstance(it, Seq):
         return [(st, IterSpec(seq=it))]
+    if isinstance(it, SliceVal):
+        b = it.base.t
+        return [(st, IterSpec(n=llen(b), elem=lambda i: SV(lget(b, i)), start=it.lo))]
     if isinstance(it, ItemsView):
         d = it.d
         return [(st, IterSpec(n=dlen(d.t), elem=lambda i: PyTuple([SV(smt.mk_str(dkey(d.t, i))), SV(dval(d.t, i))])))]
@@ -564,7 +576,7 @@ def get_attr(I, st, obj, attr):
         if attr in obj.fields:
             return [(st, obj.fields[attr])]
         raise OutOfSubset("attribute %s of %r" % (attr, obj))
-    if isinstance(obj, (SV, SStr, SInt, ListObj, PyDict, PyTuple, ItemsView, IterVal, FractionV, FloatV, PathV, Opaque, ClassRef, Builtin, ErrPathRef)):
+    if isinstance(obj, (SV, SStr, SInt, ListObj, PyDict, PyTuple, ItemsView, SliceVal, IterVal, FractionV, FloatV, PathV, Opaque, ClassRef, Builtin, ErrPathRef)):
         return [(st, BoundMethod(obj, attr))]
     raise OutOfSubset("attribute %s of %r" % (attr, obj))
 
@@ -617,7 +629,7 @@ def subscript(I, st, obj, key):
             n = llen(obj.t)
             # clamp as Python does
             a2 = z3.If(a < 0, z3.If(a + n < 0, 0, a + n), z3.If(a > n, n, a))
-            cases = [(smt.kd(obj.t, K_LIST), SV(lslice(obj.t, a2))),
+            cases = [(smt.kd(obj.t, K_LIST), SliceVal(obj, a2)),
                      (smt.kd(obj.t, K_STR), "str"),
                      (z3.Not(smt.is_kind(obj.t, K_LIST, K_STR)), raised("TypeError", "slice"))]
             out = []
@@ -782,6 +794,8 @@ def prim_len(I, st, x):
         return [(st, SInt(len(x.items)))]
     if isinstance(x, PyDict):
         return [(st, SInt(len(x.d)))]
+    if isinstance(x, SliceVal):
+        return [(st, SInt(llen(x.base.t) - x.lo))]
     if isinstance(x, ListObj):
         return [(st, SInt(seq_len(list_seq(st, x), st.heap[x.oid]["kind"])))]
     hook = ctx.config.get("len_hook")
@@ -869,11 +883,13 @@ def prim_enumerate(I, st, x, start=None):
         if spec.seq is not None:
             raise OutOfSubset("enumerate over a generator result")
         inner = spec.elem
-        sp = IterSpec(n=spec.n, elem=(lambda i, inner=inner: PyTuple([SInt(i + st_t), inner(i)])), unordered=spec.unordered)
+        lo = spec.start if spec.start is not None else z3.IntVal(0)
+        off = z3.simplify(st_t - lo)
+        sp = IterSpec(n=spec.n, elem=(lambda i, inner=inner: PyTuple([SInt(z3.simplify(i + off)), inner(i)])), unordered=spec.unordered)
         # enumerate() returns a stateful iterator object; model its position so it can be shared
         s2 = s.fork()
         oid = I.ctx.new_oid()
-        s2.heap[oid] = {"iter": True, "pos": z3.IntVal(0)}
+        s2.heap[oid] = {"iter": True, "pos": lo}
         out.append((s2, IterVal(sp, oid)))
     return out
 
